@@ -16,6 +16,9 @@ import (
 
 	"github.com/anishathalye/porcupine"
 	"github.com/thushan/olla/internal/adapter/balancer"
+	"github.com/thushan/olla/internal/adapter/discovery"
+	"github.com/thushan/olla/internal/config"
+	"github.com/thushan/olla/internal/verifhook"
 	"github.com/thushan/olla/internal/adapter/stats"
 	"github.com/thushan/olla/internal/core/domain"
 )
@@ -42,6 +45,11 @@ func (propC06) Gen(seed uint64, tier string, idx int) *Plan2 {
 	if mode == 0 {
 		p.Sub = strat + "/sequential"
 		p.Params["mode"] = "seq"
+		if strat == "round-robin" && r.n(2) == 0 {
+			// the list of every selection comes from the endpoint repository, as on the request path
+			p.Sub += "/via-repository"
+			p.Params["via_repo"] = true
+		}
 		// random gauge vector
 		var g []any
 		for i := 0; i < n; i++ {
@@ -100,7 +108,9 @@ func c06Endpoints(p *Plan2) []*domain.Endpoint {
 		parts := strings.SplitN(spec, ":", 2)
 		st = parts[0]
 		fmt.Sscanf(parts[1], "%d", &pr)
-		u, _ := url.Parse(fmt.Sprintf("http://e%d:80", i))
+		// endpoint URLs are kept as configured: with or without a trailing slash or base path
+		suffix := []string{"", "", "/", "/base/"}[(p.Seed>>uint(8+2*i))&3]
+		u, _ := url.Parse(fmt.Sprintf("http://e%d:80%s", i, suffix))
 		out = append(out, &domain.Endpoint{Name: fmt.Sprintf("e%d", i), URL: u, URLString: u.String(), Status: domain.EndpointStatus(st), Priority: pr})
 	}
 	return out
@@ -187,9 +197,62 @@ func (propC06) Exec(p *Plan2, res *Result2) {
 			}
 		case "round-robin":
 			n := len(routable)
+			list := func() []*domain.Endpoint { return eps }
+			if p.Bool("via_repo", false) {
+				// A request's candidates are built by ranging over the repository's map. Go starts every such
+				// range at a random position; the hook stands in for that coin: each call emits the entries
+				// rotated by a PRNG-chosen offset (a subset of what the runtime may do).
+				var calls uint64
+				verifhook.OrderFn = func(keys []string) []int {
+					calls++
+					idx := make([]int, len(keys))
+					for i := range idx {
+						idx[i] = i
+					}
+					sort.SliceStable(idx, func(a, b int) bool { return keys[idx[a]] < keys[idx[b]] })
+					off := int(mix64(p.Seed^calls*0x9e3779b97f4a7c15) % uint64(len(keys)))
+					return append(idx[off:], idx[:off]...)
+				}
+				defer func() { verifhook.OrderFn = nil }()
+				repo := discovery.NewStaticEndpointRepository()
+				var cfgs []config.EndpointConfig
+				for _, e := range eps {
+					prio := e.Priority
+					cfgs = append(cfgs, config.EndpointConfig{Name: e.Name, URL: e.URLString, Type: "vllm", Priority: &prio})
+				}
+				if err := repo.LoadFromConfig(ctx, cfgs); err != nil {
+					res.Err = "load: " + err.Error()
+					return
+				}
+				all, _ := repo.GetAll(ctx)
+				routable = nil
+				for _, stored := range all {
+					for _, e := range eps {
+						if e.Name == stored.Name {
+							c := *stored
+							c.Status = e.Status
+							if err := repo.UpdateEndpoint(ctx, &c); err != nil {
+								res.Err = "seed: " + err.Error()
+								return
+							}
+							if e.Status == domain.StatusHealthy {
+								routable = append(routable, e)
+							}
+						}
+					}
+				}
+				n = len(routable)
+				if n == 0 {
+					return
+				}
+				list = func() []*domain.Endpoint {
+					l, _ := repo.GetHealthy(ctx)
+					return l
+				}
+			}
 			var picks []string
 			for i := 0; i < n*7; i++ {
-				got, err := sel.Select(ctx, eps)
+				got, err := sel.Select(ctx, list())
 				if err != nil || got == nil || !got.Status.IsRoutable() {
 					res.add("C06", "C06/round-robin/bad-selection", "list [%s] -> %v %v", desc(), got, err)
 					return
